@@ -19,7 +19,7 @@ ASSUMPTIONS = common.ASSUMPTIONS + [
     'host key blobs: the key object is a stub with symbolic parameters (the cryptodatahub PublicKey classes are outside the interpreter); compose_ssh_mpint is used by the contract "appends MP(value)" with MP uninterpreted - that MP is the canonical two\'s-complement mpint is C11 (sampled there)',
 ]
 UNCOVERED = [
-    'binary packet layer (SshRecord*: packet_length, padding_length, padding 4..255 and multiple of 8): the padding loop of SshRecordBase.compose has a symbolic trip count without a loop contract and the packet variants include KEXINIT; not under contract',
+    'binary packet layer: the compose direction is covered (packet units: payload an arbitrary byte string); the round trip of whole SSH records (parse of the message variants incl. KEXINIT) exceeds the exploration budget',
     'KEXINIT as a whole, DH (group) exchange REPLY messages (host key inside), DISCONNECT (utf-8 text), banner grammar (text layer), OpenSSH certificates and X.509 chains: K6 not stated (K3 of the certificate classes is in the thorough tier of C01)',
     'the parse direction of the host key blobs (external PublicKey objects)',
 ]
@@ -179,6 +179,67 @@ def key_blob_unit(cls, kind):
                 functions=['%s.compose' % cls.__name__, '%s._compose_host_key_params' % cls.__name__, 'spec.ssh.host_key_%s' % kind])
 
 
+def packet_unit(cls):
+    """RFC 4253 6: uint32 packet_length, byte padding_length, payload, padding; the total is a multiple of 8, the padding
+    is 4..255 bytes, packet_length counts padding_length byte + payload + padding. The payload is the composed message,
+    an ARBITRARY byte string here (the message enters by its class contract); the real compose() is run for every
+    residue of the payload length modulo 8 (which fixes the trip count of the padding loop)"""
+    def thunk():
+        from spec.wire import cat, u8, u32
+        P = E.cur()
+        payload, facts = V.base_seq('payload', 'bytearray')
+        for f in facts:
+            P.assume(f)
+        P.inputs['payload'] = payload
+        r = None
+        for k in range(8):
+            if P.branch(payload.n % 8 == k):
+                r = k
+                break
+        msg = SObj(cls._get_variant_class())
+        msg.abstract = True
+        msg.abstract_of = cls._get_variant_class()
+        msg.abstract_id = V.fresh_int('obj')
+        msg.f['_abs_compose'] = payload
+        o = SObj(cls, dict(packet=msg))
+        out = vc.outcome_of(lambda: I.call(I.getattr_(o, 'compose'), [], {}))
+        if out.kind != 'ret':
+            e1.record_path_fact(P, 'packet: compose refuses only with the library errors (raised %s)' % out.value.cls.__name__,
+                                issubclass(out.value.cls, e1.FOUR))
+            return
+        wire = ops.as_seq(out.value)
+        pad = wire.at(4)
+        plen = ((wire.at(0) * 256 + wire.at(1)) * 256 + wire.at(2)) * 256 + wire.at(3)
+        P.oblige('packet: the whole packet is a multiple of 8 bytes', wire.n % 8 == 0)
+        P.oblige('packet: 4 <= padding_length <= 255', z3.And(pad >= 4, pad <= 255))
+        P.oblige('packet: packet_length == 1 + len(payload) + padding_length and the packet is 4 + packet_length bytes',
+                 z3.And(plen == 1 + payload.n + pad, wire.n == 4 + plen))
+        vc.oblige_equal(P, 'packet: the payload follows the five header bytes unchanged',
+                        V.slice_seq(wire, 5, 5 + payload.n).copy('bytes'), payload.copy('bytes'))
+
+    def native(seed=0, hints=()):
+        from cryptoparser.ssh.subprotocol import SshUnimplementedMessage, SshNewKeys, SshDHGroupExchangeGroup
+        for m in [SshNewKeys(), SshUnimplementedMessage(7)] + [SshDHGroupExchangeGroup(bytes(n), b'\x02') for n in range(0, 20)]:
+            try:
+                w = bytes(cls(m).compose())
+            except Exception:
+                continue
+            body = bytes(m.compose())
+            pl, pad = int.from_bytes(w[:4], 'big'), w[4]
+            if len(w) % 8 or not 4 <= pad <= 255 or pl != 1 + len(body) + pad or len(w) != 4 + pl or w[5:5 + len(body)] != body:
+                return dict(reproduced=True, call='%s(%r).compose()' % (cls.__name__, m), observed=w.hex()[:80],
+                            expected='multiple of 8, padding 4..255, packet_length = 1 + %d + padding' % len(body), key='packet layout')
+        return dict(reproduced=False)
+
+    def run():
+        e2.setup()
+        from contracts import nested
+        nested.ABSTRACT_DISABLED = False       # the message is abstract on purpose
+        return vc.run_unit(cls.__name__, thunk, max_paths=200)
+    return Unit('packet/%s' % common.class_key(cls), run, replay=lambda inputs: native(0), search=native, clause='binary packet',
+                functions=['SshRecordBase.compose'])
+
+
 def units(tier, seed):
     from cryptoparser.ssh import key as SK
     from checks import foundation
@@ -190,6 +251,9 @@ def units(tier, seed):
                         functions=['%s.compose' % n, '%s._parse' % n, 'spec.%s' % n]))
     for cls, kind in ((SK.SshHostKeyRSA, 'rsa'), (SK.SshHostKeyDSS, 'dss'), (SK.SshHostKeyECDSA, 'ecdsa'), (SK.SshHostKeyEDDSA, 'eddsa')):
         out.append(key_blob_unit(cls, kind))
+    from cryptoparser.ssh import record as SR
+    for cls in (SR.SshRecordInit, SR.SshRecordKexDH, SR.SshRecordKexDHGroup):
+        out.append(packet_unit(cls))
     return out + foundation.units(tier, seed)
 
 
